@@ -198,7 +198,7 @@ def discharge_split(vcs, timeout_ms=None, first_ms=3000, **kw):
     fres = discharge(flat, timeout_ms=timeout_ms, **kw) if flat else []
     # phase 3: what is still `unknown` (never `sat`) gets one more, longer attempt - verdicts must not flip because the machine is busy
     slow = [(i, s_) for i, (s_, r_) in enumerate(zip(flat, fres)) if r_.status == "unknown" and s_.expect == "unsat"]
-    if slow and len(slow) <= 8:
+    if slow and len(slow) <= 4:
         again = discharge([s_ for _, s_ in slow], timeout_ms=timeout_ms * 4, second_opinion=False)
         for (i, _), r2 in zip(slow, again):
             if r2.status == "unsat":
